@@ -287,3 +287,132 @@ func cn(f *ssa.Function) string {
 	}
 	return f.Name()
 }
+
+// body is a function whose instructions implement (part of) an anchor function: the anchor itself, or a module helper the
+// anchor forwards to. bind maps the helper's parameters to the values the anchor passes, so that a rule can state facts about
+// the helper's instructions in the anchor's terms ("derived from the constructor's parameter", "labelled with this constant").
+type body struct {
+	fn   *ssa.Function
+	bind map[*ssa.Parameter]ssa.Value
+	via  *ssa.Call // the forwarding call in the anchor (nil for the anchor itself)
+}
+
+// bodies returns the anchor and, when every return of the anchor hands back the results of one and the same kind of static call
+// to a module helper ( return newSecureSession(key, out, in) ), the helper bound at each such call.
+func bodies(f *ssa.Function) []body {
+	out := []body{{fn: f}}
+	seen := map[*ssa.Call]bool{}
+	core.Instrs(f, func(i ssa.Instruction) {
+		r, ok := i.(*ssa.Return)
+		if !ok || len(r.Results) == 0 {
+			return
+		}
+		var call *ssa.Call
+		for _, v := range res(r) {
+			switch x := v.(type) {
+			case *ssa.Call:
+				call = x
+			case *ssa.Extract:
+				call, _ = x.Tuple.(*ssa.Call)
+			}
+			break
+		}
+		if call == nil || seen[call] {
+			return
+		}
+		g := call.Call.StaticCallee()
+		if g == nil || g == f || !core.InModule(g) || g.Blocks == nil || g.Pkg != f.Pkg {
+			return
+		}
+		seen[call] = true
+		b := body{fn: g, bind: map[*ssa.Parameter]ssa.Value{}, via: call}
+		args := call.Call.Args
+		for k, q := range g.Params {
+			if k < len(args) {
+				b.bind[q] = args[k]
+			}
+		}
+		out = append(out, b)
+	})
+	return out
+}
+
+// lift rewrites a value of a helper body into the anchor's value when it is (a copy, slice or conversion of) a bound parameter.
+func (b body) lift(v ssa.Value) ssa.Value {
+	if b.bind == nil {
+		return v
+	}
+	for _, s := range core.Sources(v) {
+		if q, ok := s.(*ssa.Parameter); ok {
+			if a, ok := b.bind[q]; ok {
+				return a
+			}
+		}
+	}
+	if a := allocOf(v); a != nil {
+		for _, r := range *a.Referrers() {
+			if st, ok := r.(*ssa.Store); ok && st.Addr == ssa.Value(a) {
+				if q, ok := st.Val.(*ssa.Parameter); ok {
+					if arg, ok := b.bind[q]; ok {
+						return arg
+					}
+				}
+			}
+		}
+	}
+	return v
+}
+
+// lifted is a site of an anchor function that may have been moved into a module helper called from the anchor:  at  is the
+// instruction *in the anchor* (the site itself or the call of the helper), inner the site, b the helper's binding. Guards are
+// evaluated on  at  (what dominates the call dominates everything the helper does); values through val().
+type lifted struct {
+	at    ssa.Instruction
+	inner ssa.Instruction
+	b     body
+}
+
+func (l lifted) val(v ssa.Value) ssa.Value { return l.b.lift(v) }
+
+// liftedSites: the instructions of root satisfying pred, and those of same-package helpers that root calls statically
+// (one level; helpers that are themselves anchors of a rule are found by that rule).
+func liftedSites(root *ssa.Function, pred func(ssa.Instruction) bool) []lifted {
+	var out []lifted
+	core.Instrs(root, func(i ssa.Instruction) {
+		if pred(i) {
+			out = append(out, lifted{at: i, inner: i, b: body{fn: root}})
+			return
+		}
+		call, ok := i.(ssa.CallInstruction)
+		if !ok {
+			return
+		}
+		if _, isGo := i.(*ssa.Go); isGo {
+			return
+		}
+		g := call.Common().StaticCallee()
+		if g == nil || g == root || !core.InModule(g) || g.Blocks == nil || g.Pkg != root.Pkg || g.Parent() != nil {
+			return
+		}
+		var b *body
+		core.Instrs(g, func(j ssa.Instruction) {
+			if !pred(j) {
+				return
+			}
+			if b == nil {
+				b = &body{fn: g, bind: map[*ssa.Parameter]ssa.Value{}}
+				if cv, isV := i.(*ssa.Call); isV {
+					b.via = cv
+				}
+				args := call.Common().Args
+				for k, q := range g.Params {
+					if k < len(args) {
+						b.bind[q] = args[k]
+					}
+				}
+			}
+			out = append(out, lifted{at: i, inner: j, b: *b})
+		})
+	})
+	return out
+}
